@@ -6,4 +6,5 @@ import SpecsModel.Props.C19
 #print axioms SpecsModel.C19.interrupted_purge_frame
 #print axioms SpecsModel.C19.interrupted_clear_reports_empty
 #print axioms SpecsModel.C19.interrupted_bulk_destroys_subset
+#print axioms SpecsModel.C19.insertion_after_fault_is_kept
 #print axioms SpecsModel.C19.changeset_interrupted_clear
